@@ -3,26 +3,35 @@
 From OTR Require Import Go.Base Gen.Consts Corr.Val Proto.SmpTypes Proto.Keys Proto.Smp Proto.Conv Proto.Run.
 Open Scope N_scope.
 
-Record xstate := { x_sys : sys; x_pa : nat; x_pb : nat; x_awins : bool; x_now : N }.
+(* x_user: calls the users will still make (in this order), at any moment of the exchange *)
+Record xstate := { x_sys : sys; x_pa : nat; x_pb : nat; x_awins : bool; x_now : N; x_user : list sop }.
 
 Definition outs_of (x : xstate) (who : nat) : list wire := nth who (s_outs (x_sys x)) [].
 Definition pendingA (x : xstate) : bool := (x_pa x <? length (outs_of x 0))%nat.
 Definition pendingB (x : xstate) : bool := (x_pb x <? length (outs_of x 1))%nat.
-Definition quiescent (x : xstate) : bool := negb (pendingA x) && negb (pendingB x).
+Definition pendingU (x : xstate) : bool := match x_user x with [] => false | _ => true end.
+Definition quiescent (x : xstate) : bool := negb (pendingA x) && negb (pendingB x) && negb (pendingU x).
 
-Inductive xmove := DeliverAB | DeliverBA.
+Inductive xmove := DeliverAB | DeliverBA | UserCall.
 Definition enabled (x : xstate) : list xmove :=
-  (if pendingA x then [DeliverAB] else []) ++ (if pendingB x then [DeliverBA] else []).
+  (if pendingU x then [UserCall] else []) ++ (if pendingA x then [DeliverAB] else []) ++ (if pendingB x then [DeliverBA] else []).
 
 (* the comparison of the two commitment hashes is antisymmetric: party 1 has the higher hash iff x_awins *)
 Definition xapply (mv : xmove) (x : xstate) : xstate :=
   match mv with
   | DeliverAB =>
       let '(s', _) := run_op (x_sys x) (ODeliver 1 (N.of_nat (x_pa x)) 2 MNone (if x_awins x then 0 else 1) [] (x_now x)) in
-      {| x_sys := s'; x_pa := S (x_pa x); x_pb := x_pb x; x_awins := x_awins x; x_now := x_now x |}
+      {| x_sys := s'; x_pa := S (x_pa x); x_pb := x_pb x; x_awins := x_awins x; x_now := x_now x; x_user := x_user x |}
   | DeliverBA =>
       let '(s', _) := run_op (x_sys x) (ODeliver 2 (N.of_nat (x_pb x)) 1 MNone (if x_awins x then 1 else 0) [] (x_now x)) in
-      {| x_sys := s'; x_pa := x_pa x; x_pb := S (x_pb x); x_awins := x_awins x; x_now := x_now x |}
+      {| x_sys := s'; x_pa := x_pa x; x_pb := S (x_pb x); x_awins := x_awins x; x_now := x_now x; x_user := x_user x |}
+  | UserCall =>
+      match x_user x with
+      | [] => x
+      | o :: rest =>
+          let '(s', _) := run_op (x_sys x) o in
+          {| x_sys := s'; x_pa := x_pa x; x_pb := x_pb x; x_awins := x_awins x; x_now := x_now x; x_user := rest |}
+      end
   end.
 
 Definition goal (x : xstate) : bool :=
@@ -47,7 +56,7 @@ Inductive all_schedules_ok : nat -> xstate -> Prop :=
 
 Lemma enabled_nonempty x : quiescent x = false -> enabled x <> [].
 Proof.
-  unfold quiescent, enabled. destruct (pendingA x), (pendingB x); cbn; intros H; try discriminate; congruence.
+  unfold quiescent, enabled. destruct (pendingU x), (pendingA x), (pendingB x); cbn; intros H; try discriminate; congruence.
 Qed.
 
 Theorem explore_sound n : forall x, explore n x = true -> all_schedules_ok n x.
@@ -62,7 +71,8 @@ Qed.
 (* ---------------- configurations ---------------- *)
 Definition qbits (p : N) : N := N.lor (if Bytes.Text.has p c_allowV2 then 4 else 0) (if Bytes.Text.has p c_allowV3 then 8 else 0).
 
-Inductive start := SQueryOne | SQueryBoth | SWhitespace | SErrorStart | SRequireSend | SRefresh | SRefreshBoth.
+Inductive start := SQueryOne | SQueryBoth | SWhitespace | SErrorStart | SRequireSend | SRefresh | SRefreshBoth
+                 | SWhitespaceTwice | SRequireSendTwice | SAfterEnd | SAfterEndOther.
 
 Definition after_ops (pols : list N) (ops : list sop) : sys :=
   fold_left (fun s o => fst (run_op s o)) ops (sys_init pols).
@@ -72,7 +82,8 @@ Definition handshake_ops (pa pb : N) : list sop :=
    ODeliver 2 1 1 MNone 0 [] 10; ODeliver 1 1 2 MNone 0 [] 10].
 
 Definition start_state (k : start) (pa pb : N) (awins : bool) : xstate :=
-  let mk s pa_ pb_ := {| x_sys := s; x_pa := pa_; x_pb := pb_; x_awins := awins; x_now := 500 |} in
+  let mku s pa_ pb_ u := {| x_sys := s; x_pa := pa_; x_pb := pb_; x_awins := awins; x_now := 500; x_user := u |} in
+  let mk s pa_ pb_ := mku s pa_ pb_ [] in
   match k with
   | SQueryOne => mk (after_ops [pa; pb] [OInject 2 (WQuery (qbits pa)) 500]) 0%nat 0%nat
   | SQueryBoth => mk (after_ops [pa; pb] [OInject 2 (WQuery (qbits pa)) 500; OInject 1 (WQuery (qbits pb)) 500]) 0%nat 0%nat
@@ -83,6 +94,16 @@ Definition start_state (k : start) (pa pb : N) (awins : bool) : xstate :=
   | SRefresh => mk (after_ops [pa; pb] (handshake_ops pa pb ++ [OInject 2 (WQuery (qbits pa)) 500])) 2%nat 2%nat
   | SRefreshBoth =>
       mk (after_ops [pa; pb] (handshake_ops pa pb ++ [OInject 2 (WQuery (qbits pa)) 500; OInject 1 (WQuery (qbits pb)) 500])) 2%nat 2%nat
+  (* the user writes twice; the second message may come at any moment of the exchange the first one started *)
+  | SWhitespaceTwice =>
+      mku (sys_init [N.lor pa c_sendWhitespaceTag; N.lor pb c_whitespaceStartAKE]) 0%nat 0%nat [OSend 1 500 [104; 105]; OSend 1 500 [104; 111]]
+  | SRequireSendTwice =>
+      mku (sys_init [N.lor pa c_requireEncryption; pb]) 0%nat 0%nat [OSend 1 500 [104; 105]; OSend 1 500 [104; 111]]
+  (* party 1 has just ended the session and party 2 knows; one of them asks again at once *)
+  | SAfterEnd =>
+      mku (after_ops [pa; pb] (handshake_ops pa pb ++ [OEnd 1 20; ODeliver 1 2 2 MNone 0 [] 20])) 3%nat 2%nat [OInject 2 (WQuery (qbits pa)) 20]
+  | SAfterEndOther =>
+      mku (after_ops [pa; pb] (handshake_ops pa pb ++ [OEnd 1 20; ODeliver 1 2 2 MNone 0 [] 20])) 3%nat 2%nat [OInject 1 (WQuery (qbits pb)) 20]
   end.
 
 (* version policy pairs that share a version *)
@@ -93,4 +114,4 @@ Definition configs (ks : list start) : list (start * (N * N) * bool) :=
   list_prod (list_prod ks version_pairs) [true; false].
 
 Definition check_config (cfg : start * (N * N) * bool) : bool :=
-  let '(k, (pa, pb), w) := cfg in explore 24 (start_state k pa pb w).
+  let '(k, (pa, pb), w) := cfg in explore 30 (start_state k pa pb w).
